@@ -71,6 +71,8 @@ type spec struct {
 	FloatAbs string      // float32 is this Lean type parameter with a decidable `<` (only < and > are translated)
 	FloatLE  bool        // … and a decidable `≤` (<= and >= are translated too)
 	CapVars  []string    // "v=c": cap(v) of the slice variable v is the int variable c; `v = append(v, ..)` updates c
+	Asserts  []string    // "name=Opaque:GoType": the comma-ok type assertion `p, ok := v.(GoType)` on a value of the opaque type is the abstract function name : Opaque → Option T
+	LogCalls []string    // expression statements whose text starts with one of these prefixes are logging call chains: EXPLICITLY not translated (no result is used)
 }
 
 // a fragment: the consecutive statements of one block from the one whose text starts with First to
@@ -181,6 +183,20 @@ var specs = []spec{
 		Params: []string{"pq *productQuantizer", "dists []float32", "pointY *productQuantizedPoint"}, Locals: []string{"dist float32"}, Results: []string{"dist"}}),
 	pqSpec("DistanceFromPoint", "pq_lookupFromPoint", &fragSpec{First: "var dist float32", Last: "for i := 0; i < pq.params.NumSubVectors; i++ {",
 		Params: []string{"pq *productQuantizer", "pointX *productQuantizedPoint", "pointY *productQuantizedPoint"}, Locals: []string{"dist float32"}, Results: []string{"dist"}}),
+	// the binary quantiser: which of bit distance / float distance its two distance closures use
+	bqSpec("DistanceFromFloat"), bqSpec("DistanceFromPoint"),
+}
+
+// binary.go: the stored point behind the interface (type assertion) and `encode` (translated over bit patterns in
+// Generated/BitDist.lean) are abstract; the logging of the impossible case is explicitly left out
+func bqSpec(fn string) spec {
+	return spec{File: "shard/vectorstore/binary.go", Func: fn, Recv: "binaryQuantizer", Module: "BQDist", Ext: true, FloatSym: true,
+		Opaque: []string{"VectorStorePoint=VPoint"}, Asserts: []string{"asBinaryPoint=VPoint:*binaryQuantizedPoint"}, LogCalls: []string{"log.Warn()"},
+		Prims: []string{"binaryQuantizer.encode=func(vector []float32) []uint64"},
+		Structs: []structSpec{{File: "distance/distance.go", Name: "FloatDistFunc"}, {File: "distance/distance.go", Name: "BitDistFunc"},
+			{File: "shard/vectorstore/vectorstore.go", Name: "PointIdDistFn"},
+			{File: "shard/vectorstore/binary.go", Name: "binaryQuantizer", Only: []string{"threshold", "floatDistFn", "bitDistFn"}},
+			{File: "shard/vectorstore/binary.go", Name: "binaryQuantizedPoint", Only: []string{"Vector", "BinaryVector"}}}}
 }
 
 func pqSpec(fn, name string, fr *fragSpec) spec {
